@@ -76,6 +76,7 @@ Step(x, e) ==
               ELSE {})
         cov == (IF e.quiet THEN {"quiet"} ELSE {})
                \cup (IF edge THEN {"edge:" \o a.a} ELSE {})
+               \cup (IF a.a = "cancelAgain" THEN {IF x.subs[a.n][a.t] = 1 /\ x.relays[a.n][a.t] = 0 THEN "cancelAgain:oneLiveSiblingNoRelay" ELSE "cancelAgain"} ELSE {})
                \cup (IF a.a = "rst" /\ e.found > 0 THEN {"rst:" \o a.dir \o ":" \o a.side} ELSE {})
                \cup (IF a.a \in {"link", "unlink"} THEN {a.a} ELSE {})
                \cup (IF e.quiet /\ \E y, z \in x.nodes : x2.lost[y][z] # {} THEN {"quietAfterOutboundReset"} ELSE {})
